@@ -23,8 +23,36 @@ MUST_HAVE_COORD = {"Decl", "Typedef", "FuncDef", "ID", "Constant", "UnaryOp", "B
                    "EllipsisParam", "ParamList", "InitList", "Alignas", "EnumeratorList"}
 
 
+# coordinate-less constructor sites outside the placeholder idiom, one construct each
+COORDLESS_OK = {
+    ("_parse_translation_unit_or_empty", "FileAST"): "the root node stands for the whole input, not for a token; the property does not list it",
+    ("_parse_struct_declaration", "IdentifierType"): "legacy branch for non-node entries of spec['type']; every producer of type specifiers stores nodes (R-C03.2 sites), so the branch is dead",
+}
+
+
+def _placeholder_context(c, fn, spec):
+    """How a coordinate-less constructor call is used, when that use cannot expose its missing coordinate; None otherwise."""
+    cur = c
+    par = getattr(cur, "_parent", None)
+    while isinstance(par, ast.BoolOp):       # `decl or TypeDecl(...)`
+        cur, par = par, getattr(par, "_parent", None)
+    if isinstance(par, ast.keyword) and par.arg in ("type", "base_type"):
+        return f"{par.arg}= operand of a located node"
+    if isinstance(par, ast.Call) and isinstance(par.func, ast.Attribute) and isinstance(par.func.value, ast.Name) and par.func.value.id == "c_ast" and par.func.attr in spec:
+        idx = next((i for i, a in enumerate(par.args) if a is cur), None)
+        if idx is not None and idx < len(spec[par.func.attr]) and spec[par.func.attr][idx].rstrip("*") == "type":
+            return "type operand of a located node"
+    if isinstance(par, ast.Assign) and len(par.targets) == 1 and isinstance(par.targets[0], ast.Name) and fn is not None:
+        v = par.targets[0].id
+        uses = [n_ for n_ in ast.walk(fn) if isinstance(n_, ast.Name) and n_.id == v and isinstance(n_.ctx, ast.Load)]
+        if uses and all(isinstance(getattr(u, "_parent", None), ast.Call) and S.unparse(getattr(u, "_parent").func).endswith("_type_modify_decl") and getattr(u, "_parent").args and getattr(u, "_parent").args[0] is u for u in uses):
+            return "spliced under a located modifier by _type_modify_decl"
+    return None
+
+
 def check(ctx):
     ctx.rule("R-C11.1", "every node of the classes named by the property is constructed with a coordinate that cannot be None")
+    ctx.rule("R-C11.7", "a node built without a coordinate is only ever the `type` operand of a node that has one (declarator placeholders): its missing coordinate can never become a node's coordinate or an error location")
     ctx.rule("R-C11.2", "the coordinate of every constructed node comes from the token / sub-node the reviewed reference names (spelling token for names and constants, a token of the construct otherwise)")
     ctx.rule("R-C11.4", "line, column and file are stamped on the token when it is lexed (only in _make_token, from the start offset) and _tok_coord uses the token's own values")
     ctx.rule("R-C11.6", "error locations: every _parse_error location is a token / node coordinate or the file name; the illegal-character error passes the offending offset")
@@ -44,6 +72,30 @@ def check(ctx):
             if not ok:
                 ctx.violation("R-C11.1", f"nocoord:{m}:{cls}", f"{m} builds a {cls} node {'without a coordinate' if c is None else 'whose coordinate can be None'} ({c})", file=px.rel, function=m)
     ctx.require_instances("R-C11.1", 70)
+    # ---- R-C11.7 ------------------------------------------------------------------
+    from .. import astspec as A
+    spec = {nme: [e for e, _ in ents] for nme, ents, _ in A.parse_cfg()}
+    n7 = 0
+    for mod in (px, S.module("ast_transforms")):
+        for c in ast.walk(mod.tree):
+            if not (isinstance(c, ast.Call) and isinstance(c.func, ast.Attribute) and isinstance(c.func.value, ast.Name) and c.func.value.id == "c_ast" and c.func.attr in spec):
+                continue
+            fields = spec[c.func.attr] + ["coord"]
+            got = {fields[i]: a for i, a in enumerate(c.args) if i < len(fields)}
+            got.update({k_.arg: k_.value for k_ in c.keywords})
+            cv = got.get("coord")
+            if not (cv is None or (isinstance(cv, ast.Constant) and cv.value is None)):
+                continue
+            fn = S.enclosing_function(c)
+            q = fn.name if fn is not None else "<module>"
+            how = _placeholder_context(c, fn, spec)
+            ok = how is not None or (q, c.func.attr) in COORDLESS_OK
+            n7 += 1
+            ctx.oblige("R-C11.7", f"{q}:{c.func.attr}@{S.unparse(c)[:40]}", ok, sample={"rule": "R-C11.7", "function": q, "node": S.unparse(c)[:60], "context": how or COORDLESS_OK.get((q, c.func.attr), "ESCAPES")})
+            if not ok:
+                ctx.violation("R-C11.7", f"coordless-escapes:{q}:{c.func.attr}", f"{q} builds `{S.unparse(c)[:70]}` without a coordinate and the node is not just the `type` operand of a located node: whoever reads its .coord (the enclosing declaration, an error message) gets None",
+                              file=mod.rel, function=q, line=c.lineno, construct=S.unparse(getattr(c, "_parent", c))[:120])
+    ctx.require_instances("R-C11.7", 5)
     # ---- R-C11.2 ------------------------------------------------------------------
     allm = set(cur) | set(WC.load_ref())
     k = WCm.run_group(ctx, "R-C11.2", allm, lambda label, field: WCm.is_coord_field(label, field) and not label.startswith("call:_parse_error"),
